@@ -84,7 +84,7 @@ type RPCObs struct {
 	started, completed      int
 	closeStarted, closeDone bool
 	recvDone                bool
-	mainInOp                bool        // two-goroutine calls: the sender is inside SendMsg/CloseSend
+	mainInOp                bool         // two-goroutine calls: the sender is inside SendMsg/CloseSend
 	pending                 []pendingAct // server actions deferred until that op has returned
 	twoG                    bool
 }
